@@ -11,11 +11,11 @@ R3  a failing result load propagates (no handler swallows it and carries on).
 """
 import ast
 
-from ..loader import AnalysisError, norm
+from ..loader import AnalysisError, norm, walk_shallow
 from ..cfg import build_cfg, node_calls
 from ..flow import TOP, NONE, TRUE, FALSE, valuations, truth, is_const
 from ..inter import Inter
-from ..util import callee_name, all_calls, arg, need
+from ..util import callee_name, all_calls, arg, need, names_in, assignments_to
 from .. import base_rules
 from . import shared
 
@@ -158,6 +158,28 @@ def delete_rule(ctx, rid, title="delete is last: table, gather/sync completed be
     return r1, entries
 
 
+def data_outside_rule(ctx, rid):
+    """The delivered data never lies inside the folder delete_all removes: the crop module never points a farmer's data
+    file into the crop's own location."""
+    rr = ctx.rule(rid, "the crop never relocates a farmer's data file into its own folder (which delete_all removes after the reap)", floor=0)
+    m = ctx.prog.modules["xyzpy.gen.cropping"]
+    n_ = 0
+    for fi in m.all_funcs:
+        for st in walk_shallow(fi.node):
+            if isinstance(st, ast.Assign) and isinstance(st.targets[0], ast.Attribute) and st.targets[0].attr in ("data_name", "_data_name"):
+                n_ += 1
+                ctx.touch(fi)
+                src = norm(st.value) + " " + " ".join(norm(v_) for nm_ in names_in(st.value) for _, v_ in assignments_to(fi, nm_) if v_ is not None)
+                if "self.location" in src or "crop.location" in src or ".location" in src:
+                    rr.bad(ctx.finding(rid, fi, st, "`%s` puts the farmer's data file inside the crop's folder: the reap saves into it and delete_all then removes it together with the crop -- the delivered data is gone" % norm(st)[:70],
+                                       construct="data-file-inside-crop"), "data outside the crop")
+                else:
+                    raise AnalysisError("idiom changed: the crop module rewrites a farmer's data_name (`%s`)" % norm(st)[:60])
+    if not n_:
+        rr.ok("no function of the crop module assigns a farmer's data_name")
+    return rr
+
+
 def run(ctx):
     prog = ctx.prog
     r1, entries = delete_rule(ctx, "C12.R1")
@@ -172,6 +194,7 @@ def run(ctx):
     c11.no_removal_rule(ctx, "C12.R5", actors=c11.ACTORS_LOAD, floor=3,
                         title="nothing on the Reaper's load path or in a progress query removes a file: a reap that fails (or is partial) leaves every grown result in place")
 
+    data_outside_rule(ctx, "C12.R6")
     sl = ctx.res.slice(entries, stop={"xyzpy.gen.combo_runner.combo_runner_to_ds", "xyzpy.gen.combo_runner.combo_runner_core"})
     sl = [f for f in sl if f.module.name == "xyzpy.gen.cropping"]
     base_rules.run_link_rules(ctx, "C12", sl)
